@@ -18,7 +18,20 @@ def gen_c14(rng, profile):
     elif profile.get("batch") == "threads":
         kn["threads"] = True
     spec = gen.gen_family(rng, kn)
-    ops = gen.gen_history(rng, spec, kn)
+    if profile.get("batch") == "abort_enum":
+        kn["aborts"] = False
+        ops = gen.gen_history(rng, spec, kn, n_ops=rng.randint(1, 3))
+        targets = [i for i, o in enumerate(ops) if o["k"] in ("call", "codec")]
+        if targets:
+            # the first calls are where compilation happens
+            target = targets[0] if rng.random() < 0.7 else rng.choice(targets)
+            stride = profile.get("stride", 7)
+            return {"prop": "C14", "spec": spec, "ops": ops,
+                    "opts": {"knobs": kn, "enum": {"target": target, "stride": stride,
+                                                   "max_execs": profile.get("enum_max_execs", 150),
+                                                   "offset": rng.randint(0, 10 ** 6)}}}
+    else:
+        ops = gen.gen_history(rng, spec, kn)
     return {"prop": "C14", "spec": spec, "ops": ops, "opts": {"knobs": kn}}
 
 
@@ -26,18 +39,148 @@ def exec_c14(case):
     return E.Execution(case["spec"], case["ops"])
 
 
-GENERATORS = {"C14": gen_c14}
-EXECUTORS = {"C14": exec_c14}
+# --------------------------------------------------------------------------
+# C13 — dialects isolated per call, honoured uniformly by every codec
+# --------------------------------------------------------------------------
+
+def gen_c13(rng, profile):
+    from . import family as F
+    kn = gen.gen_knobs(rng, profile)
+    kn.update({"dialect_support": True, "p_dialect_support": 0.85, "cfg_dialect": False,
+               "threads": False, "aborts": False, "codecs": False,
+               "p_alias": 0.35})
+    if kn["lazy"] != "none" and rng.random() < 0.6:
+        kn["lazy"] = "none"
+    if rng.random() < 0.5:
+        kn["cfg_opts"] = True
+    if rng.random() < 0.4:
+        kn["nt"] = True
+    spec = gen.gen_family(rng, kn)
+    fam = F.Fam(spec)
+    batch = profile.get("batch")
+    ops = gen.gen_history(rng, spec, kn, n_ops=rng.randint(4, 12))
+    if batch == "codec":
+        # interleave codec-equivalence events into the history
+        defined_all = fam.defined_after(len(spec["chunks"]))
+        cands = [n for n in fam.order if fam.cls(n).get("kind") != "nt"
+                 and not fam.cls(n).get("tvars")]
+        extra = []
+        for _ in range(rng.randint(2, 5)):
+            cname = rng.choice(cands)
+            shape = ["cls", cname]
+            fmt = rng.choice(["json", "orjson", "msgpack", "yaml", "toml"])
+            op = {"k": "codec_cmp", "fmt": fmt, "shape": shape}
+            if fam.dialects and rng.random() < 0.8:
+                op["dd"] = rng.choice(sorted(fam.dialects))
+            try:
+                v = gen.gen_value(rng, fam, shape, defined_all, kn=dict(kn, sub_in_base=False))
+            except gen.Unbuildable:
+                continue
+            if fmt != "toml" and rng.random() < 0.35:
+                op["dir"] = "dec"
+                dfmt = fam.dialects[op["dd"]].get("date") if op.get("dd") else None
+                doc = gen.to_input(fam, v, {"dialect": None, "tagpick": 0, "date": dfmt or "iso",
+                                            "force_date": dfmt})
+                op["inp"] = doc
+            else:
+                op["dir"] = "enc"
+                op["val"] = v
+            extra.append(op)
+        # codec events go after all definitions (they are not about postponement)
+        ops = ops + extra
+    return {"prop": "C13", "spec": spec, "ops": ops, "opts": {"knobs": kn}}
+
+
+def oracle_c13(ex, idx, op, out):
+    if op["k"] != "codec_cmp" or out["s"] != "ok":
+        return None
+    pair = ex.last_raw
+    if pair is None:
+        return None
+    a, b = pair["basic"], pair["fmt"]
+    if a[0] == "ok" and b[0] == "ok" and a[1] != b[1]:
+        return {"class": "codec-dialect-mismatch", "ref": None,
+                "detail": {"basic": a[1], "fmt": b[1]},
+                "diff_at": E.first_diff(a[1], b[1])}
+    return None
+
+
+def exec_c13(case):
+    from . import family as F
+    fam = F.Fam(case["spec"])
+
+    def twin_for(core):
+        """[dialect, classes] for the default-dialect twin of this op, or None
+        when the plain history-free reference is the right oracle."""
+        d = core.get("dialect")
+        if not d or core["k"] != "call":
+            return None
+        S, ambiguous = fam.dialect_closure(core["cls"])
+        if not S or ambiguous:
+            return None
+        return [d, sorted(S)]
+
+    return E.Execution(case["spec"], case["ops"], twin_dialect_for=twin_for,
+                       extra_oracle=oracle_c13)
+
+
+GENERATORS = {"C14": gen_c14, "C13": gen_c13}
+EXECUTORS = {"C14": exec_c14, "C13": exec_c13}
 
 
 def gen_case(prop, rng, profile):
     return GENERATORS[prop](rng, profile or {})
 
 
-def execute(case):
+def execute(case, ref_cache=None):
     ex = EXECUTORS[case["prop"]](case)
+    if ref_cache is not None:
+        ex.ref_cache = ref_cache  # same spec: references are history-free by construction
     ex.run()
     return ex
+
+
+def execute_search(case):
+    """Execute a case.  Cases carrying an enumeration request (F4 abort at every
+    stride-th traced line of one operation) are expanded here; the first failing
+    expansion is returned as an ordinary, directly replayable case."""
+    enum = (case.get("opts") or {}).get("enum")
+    if not enum:
+        return execute(case), case, 1
+    target, stride = enum["target"], enum["stride"]
+    probe = dict(case)
+    probe["opts"] = {}
+    ex0 = execute(probe)
+    if ex0.violation is not None:
+        return ex0, probe, 1
+    nsteps = ex0.op_steps.get(target, 0)
+    execs = 1
+    total = ex0
+    stride = max(stride, nsteps // enum.get("max_execs", 150))
+    total.stats["enum_stride_max"] = stride
+    for k in range(1 + enum.get("offset", 0) % stride, nsteps + 1, stride):
+        c = dict(probe)
+        ops = [dict(o) for o in case["ops"]]
+        ops[target]["abort_at"] = k
+        c["ops"] = ops
+        ex = execute(c, ref_cache=ex0.ref_cache)
+        execs += 1
+        merge_stats(total.stats, ex.stats)
+        total.digest = (total.digest * 1000003 + ex.digest) % ((1 << 61) - 1)
+        if ex.violation is not None:
+            ex.stats = total.stats
+            return ex, c, execs
+    return total, probe, execs
+
+
+def merge_stats(a, b):
+    for k, v in b.items():
+        if isinstance(v, int):
+            a[k] = a.get(k, 0) + v
+        elif isinstance(v, dict):
+            d = a.setdefault(k, {})
+            for kk, vv in v.items():
+                d[kk] = d.get(kk, 0) + vv
 
 
 def run_case(case):
